@@ -28,7 +28,7 @@ FORMATS = [None, NS, "c", "bc", "http://ns.example/v1", "http://ns.example/v1#x"
 
 
 def examples(tier):
-    return 1400 if tier == "quick" else 15000
+    return 3200 if tier == "quick" else 30000
 
 
 @st.composite
@@ -37,12 +37,15 @@ def _case(draw, tier):
     d0 = draw(st.binary(min_size=1, max_size=24))
     d1 = bytes((b + 1) % 256 for b in d0)          # same length, different bytes
     docs = [{"hex": ""}, {"hex": d0.hex()}, {"hex": d1.hex()}, {"pat": d0[:4].hex(), "n": 3 * 8192 + 1}]
+    # a per-case pool of 3 formats (always one spelling of the default) makes overwrites and collisions likely
+    fpool = [draw(st.sampled_from([None, NS])), draw(st.sampled_from(["c", "bc"])), draw(st.sampled_from(FORMATS[1:]))]
+    ppool = draw(st.sampled_from([PIDS, PIDS[:2], ["ab", "a", "abc"]]))
     op = ops.weighted(
-        (8, ops.smeta_op(PIDS, FORMATS, 4, kinds=("str", "path", "file", "bytesio"))),
-        (5, ops.rmeta_op(PIDS, FORMATS)),
-        (4, ops.dmeta_op(PIDS, FORMATS[1:])),
-        (2, ops.store_op(PIDS, 2, allow_none=False, validation=False)),
-        (3, ops.delete_op(PIDS)),
+        (9, ops.smeta_op(ppool, fpool, 4, kinds=("str", "path", "file", "bytesio"))),
+        (5, ops.rmeta_op(ppool, fpool + [None])),
+        (4, ops.dmeta_op(ppool, [f for f in fpool if f is not None])),
+        (2, ops.store_op(ppool, 2, allow_none=False, validation=False)),
+        (3, ops.delete_op(ppool)),
         (1, ops.REOPEN))
     return {"cfg": cfg, "contents": [{"hex": "6f31"}, {"hex": "6f32"}], "docs": docs,
             "ops": draw(st.lists(op, min_size=2, max_size=30)),
